@@ -527,8 +527,51 @@ func (g *gen) genAccept() {
 
 // genMixed: a random sequence of encodes across all symbologies and parameters (and Scale); repetitions are
 // deliberate (same call at different points of the history), so ops are written without de-duplication.
+// errorPathOps: calls that end in an error (or take a rarely used exit) — goroutine leaks and stale state hide there
+func (g *gen) errorPathOps() []string {
+	var ops []string
+	add := func(f string, a ...interface{}) { ops = append(ops, fmt.Sprintf(f, a...)) }
+	for lvl := 0; lvl < 4; lvl++ {
+		for _, mode := range []int{1, 2, 3} {
+			c := qrCapacity(40, lvl, mode)
+			add("qr %s %d %d", hx(g.qrContent(mode, c+1)), lvl, mode)
+			if mode != 3 {
+				add("qr %s %d 0", hx(g.qrContent(mode, c+1)), lvl)
+			}
+		}
+		// invalid character at the first / middle / last position, odd and even lengths
+		for _, n := range []int{1, 2, 7, 8} {
+			for _, pos := range []int{0, n / 2, n - 1} {
+				b := []byte(g.str("AB12", n))
+				b[pos] = 'a'
+				add("qr %s %d 2", hx(string(b)), lvl)
+				d := []byte(g.str(digits, n))
+				d[pos] = 'x'
+				add("qr %s %d 1", hx(string(d)), lvl)
+			}
+		}
+		add("qr %s %d 2", hx("AB\xc3\xa9"), lvl)
+		add("qr %s %d 0", hx(g.str("lorem ipsum ", 2500)), lvl)
+	}
+	add("dm %s", hx(g.dmContent(0, 1559)))
+	add("aztec %s 33 0", hx(g.str("abc", 4000)))
+	add("aztec %s 33 40", hx("abc"))
+	add("aztec %s 33 -2", hx(g.str("abc", 200)))
+	add("pdf %s 9", hx("abc"))
+	add("pdf %s 0", hx(g.str("abc", 3000)))
+	add("c128 %s", hx(g.str("a", 81)))
+	add("c128 %s", hx("\u00e9"))
+	add("ean %s", hx("12345678"))
+	add("c39 %s 1 0", hx("a*"))
+	add("c93 %s 1 0", hx("a*"))
+	add("codabar %s", hx("A1"))
+	add("tof %s 1", hx("123"))
+	return ops
+}
+
 func (g *gen) genMixed(n int, withMut bool) {
 	pool := g.representativeOps(false)
+	pool = append(pool, g.errorPathOps()...)
 	small := []string{}
 	for _, op := range pool {
 		if w, h, ok := sizeOf(op); ok && w*h < 3000 {
@@ -536,6 +579,10 @@ func (g *gen) genMixed(n int, withMut bool) {
 		}
 	}
 	put := func(s string) { fmt.Fprintln(g.w, s) }
+	// every error-path call once up front (they must also leave nothing running and no state behind)
+	for _, op := range g.errorPathOps() {
+		put(op)
+	}
 	for i := 0; i < n; i++ {
 		switch g.intn(10) {
 		case 0, 1, 2:
